@@ -95,7 +95,7 @@ def big_pools(draw):
 def parts(tier):
     T = (tier == 'thorough')      # thorough: larger layouts, longer histories
     return [
-        Part('histories', schedgen.histories(max_ops=40 if not T else 80, big=T, named_env=True), quick=170, thorough=1200),
+        Part('histories', schedgen.histories(max_ops=40 if not T else 80, big=T, named_env=True), quick=170, thorough=800),
         Part('scattered_progress', schedgen.histories(max_ops=30 if not T else 60, big=T, scattered=True, app=False, light=True),
              quick=90, thorough=800),
         Part('priority', prio_scenarios(), quick=120, thorough=500),
